@@ -78,6 +78,37 @@ def _local_defs(fn, name):
     return out
 
 
+def list_tainted(fn):
+    """names of locals whose text stems from a parameter that carries a LIST (rules/tables/buffers.json "lists"), not a name"""
+    import json as _json, os as _os, re as _re
+    try:
+        with open(_os.path.join(_os.path.dirname(_os.path.dirname(_os.path.abspath(__file__))), "rules", "tables", "buffers.json")) as fh:
+            rows = _json.load(fh).get("lists", [])
+    except OSError:
+        rows = []
+    seeds = set(r["param"] for r in rows if r.get("function") in (fn.name, getattr(fn, "real_name", None)))
+    if not seeds:
+        return set()
+    tainted = set(seeds)
+    changed = True
+    assigns = []
+    for lhs, rhs, st in fn.assignments():
+        if rhs is not None:
+            assigns.append((lhs["name"] if isinstance(lhs, dict) else render(lhs), render(rhs)))
+    # sscanf(src, fmt, dst...) carries the taint into its destinations
+    for c in fn.calls(("sscanf", "__isoc99_sscanf")):
+        a = c.call_args()
+        for d in a[2:]:
+            assigns.append((render(d).lstrip("&"), render(a[0])))
+    while changed:
+        changed = False
+        for l, r in assigns:
+            if l not in tainted and any(_re.search(r"(?<![A-Za-z0-9_])%s(?![A-Za-z0-9_])" % _re.escape(t), r) for t in tainted):
+                tainted.add(l)
+                changed = True
+    return tainted
+
+
 def classify_source(e, fn, arrays, depth=0):
     """(class, detail) of a string source expression."""
     e = e.strip()
@@ -374,7 +405,7 @@ def analyse_fixed_arrays(prog, util):
                     continue
                 # unbounded source
                 if rel == "tied":
-                    if arr.size_mac in OS_LIMIT_MACROS and arr.size >= 4096:
+                    if arr.size_mac in OS_LIMIT_MACROS and arr.size >= 4096 and not (set(render(args[i]) for i in spec.get("src", []) if isinstance(i, int) and i < len(args)) & list_tainted(f)):
                         sites.append(WriteSite(arr, f, c, name, "os-limit-truncation",
                                                "unbounded source %s cut at %s: names are only claimed up to the OS limits" % (worst[1], arr.size_mac), worst[0]))
                     else:
@@ -401,7 +432,14 @@ def analyse_fixed_arrays(prog, util):
                         if arr is None:
                             continue
                         if width and width.isdigit() and int(width) < arr.size and off is None:
-                            sites.append(WriteSite(arr, f, c, name, "ok", "field width %s < %d" % (width, arr.size), UNBOUNDED))
+                            src0 = args[0] if name in ("sscanf", "__isoc99_sscanf") and args else None
+                            tl = list_tainted(f)
+                            if src0 is not None and render(src0) in tl:
+                                sites.append(WriteSite(arr, f, c, name, "truncation",
+                                                       "`%s` is part of a list handed in by the caller (not a file name): %%%s%s cuts an item longer than %s bytes"
+                                                       % (render(src0), width, conv, width), UNBOUNDED))
+                            else:
+                                sites.append(WriteSite(arr, f, c, name, "ok", "field width %s < %d" % (width, arr.size), UNBOUNDED))
                         else:
                             sites.append(WriteSite(arr, f, c, name, "overflow", "%%%s without a fitting field width" % conv, UNBOUNDED))
         # element stores
@@ -467,6 +505,44 @@ def index_guard(fn, st, idx, arr):
         if render(lit.lhs) == it and (lit.rhs.const_value() is not None and lit.rhs.const_value() <= arr.size) and lit.pol:
             if cfg.dominates(s, tb) or s == tb:
                 return True
+    # the count returned by readlink()/read() into this very array with a limit below its size:  n = readlink(p, a, sizeof(a) - 1); a[n] = 0;
+    i9 = idx.strip()
+    if i9.k == "DeclRefExpr" and i9.j.get("dk") == "local":
+        from .dataflow import ReachingDefs as _RD9
+        ds9 = [d for d in _RD9(fn).defs if d.var == i9.j["name"]]
+        def _counted(d):
+            r = d.rhs.strip() if d.rhs is not None else None
+            while r is not None and r.k in ("ImplicitCastExpr", "ParenExpr", "CStyleCastExpr") and r.children:
+                r = r.children[0].strip()
+            if r is None or r.k != "CallExpr" or r.j.get("callee") not in ("readlink", "read", "readlinkat", "pread", "recv"):
+                return False
+            a = r.call_args()
+            bi = 2 if r.j["callee"] == "readlinkat" else 1
+            return len(a) > bi + 1 and render(a[bi]) == arr.name and a[bi + 1].const_value() is not None and a[bi + 1].const_value() <= arr.size - 1
+        if ds9 and all(_counted(d) for d in ds9):
+            okn, cutn = cfg.all_paths_cut(tb, lambda lit, b, i: lit is not None and lit.kind == "lt" and render(lit.lhs) == it and lit.rhs.const_value() == 0 and not lit.pol)
+            if okn and cutn:
+                return True
+    # an index that starts as strlen(<this array>) and only goes down: `len = strlen(a); while (len > 0 && ..) a[--len] = 0;`
+    ix = idx.strip()
+    if ix.k == "UnaryOperator" and ix.j.get("op") in ("--",):
+        ix = ix.children[0].strip()
+    elif ix.k == "BinaryOperator" and ix.j.get("op") == "-" and ix.children[1].const_value() is not None and ix.children[1].const_value() >= 0:
+        ix = ix.children[0].strip()
+    if ix.k == "DeclRefExpr" and ix.j.get("dk") == "local":
+        from .dataflow import ReachingDefs as _RDx
+        _rdx = _RDx(fn)
+        dsx = [d for d in _rdx.defs if d.var == ix.j["name"]]       # every definition the function has for it
+        def _down(d):
+            if d.rhs is not None and render(d.rhs.strip()) == "strlen(%s)" % arr.name:
+                return True
+            if d.node is not None and d.node.k == "UnaryOperator" and (d.node.j.get("op") == "--" or "--" in render(d.node)):
+                return True
+            if d.node is not None and d.node.k == "CompoundAssignOperator" and d.node.j.get("op") == "-=":
+                return True
+            return False
+        if dsx and all(_down(d) for d in dsx) and any(d.rhs is not None and render(d.rhs.strip()) == "strlen(%s)" % arr.name for d in dsx):
+            return True
     # the counter of a finished loop: `for (i = 0; i < C && ..; i++) ..;  a[i] = 0;` leaves i <= C
     i0 = idx.strip()
     if i0.k == "DeclRefExpr":
